@@ -333,8 +333,11 @@ def main():
                 traces.append((sc, out))
 
         known = [k for k in load_known() if k.get("property") == prop]
-        for label, path in traces:
-            verdict, st, dt = validate_trace(f"{prop}-tv-{label}", path)
+        from concurrent.futures import ThreadPoolExecutor
+        npar = max(2, 12 // max(1, len(traces)))
+        with ThreadPoolExecutor(max_workers=max(1, len(traces))) as ex:
+            tv_results = list(ex.map(lambda lp: validate_trace(f"{prop}-tv-{lp[0]}", lp[1], par=npar), traces))
+        for (label, path), (verdict, st, dt) in zip(traces, tv_results):
             tv_states += st["distinct"] if st else 0
             tv_events += verdict["total"]
             tv_wall += dt
